@@ -31,6 +31,9 @@ def fatal_message(err):
     return " | ".join(lines[-3:])[-400:]
 
 
+SMP_NAME_RE = re.compile(r"smp|two_level|mvapich2|impi|mpich|^ompi$|automatic|loosely|inter_node|intra_node|NTS|default", re.I)
+
+
 def pof2(p):
     return p & (p - 1) == 0
 
@@ -53,6 +56,8 @@ class Run:
         self.refusals = {}        # p -> how
         self.judged = 0
         self.nontrivial = False
+        self.abort_refusals = {}    # (target, p) -> calls refused by xbt_assert/xbt_die (each one kills a simulated program)
+        self.unknown_failures = {}  # target -> failing (size, call) that no known finding explains
         self.ok_items = []          # (p, ci) that went through the whole oracle
         self.unsafe_calls = set()   # call indices confirmed (alone) to damage the process: never again in a batch
         self.retried = set()        # (p, ci) that failed in a batch but passed alone: re-run once in a later batch
@@ -305,8 +310,32 @@ class Run:
         rounds = 0
         while todo:
             rounds += 1
-            if rounds > 400:
+            if rounds > 1500:
                 raise RuntimeError("C29: too many rounds")
+            # an implementation that already failed 25 times (unexplained failures) is not run any more: the violations are there,
+            # every further one costs a simulated program
+            broken = [t for t, n in self.unknown_failures.items() if n >= 25]
+            if broken:
+                for p in sorted(todo):
+                    todo[p] = [ci for ci in todo[p] if self.target(ci) not in broken]
+                    if not todo[p]:
+                        del todo[p]
+                if "gave-up-after-25-failures" not in self.oc.labels:
+                    self.oc.labels.append("gave-up-after-25-failures")
+                if not todo:
+                    break
+            # an implementation that refused a size three times by killing the run is taken to refuse that size: its other calls
+            # at that size are not run (every refusal of this kind costs a simulated program)
+            for (tgt, p), n in self.abort_refusals.items():
+                if n >= 3 and p in todo:
+                    left = [ci for ci in todo[p] if self.target(ci) != tgt]
+                    if len(left) != len(todo[p]):
+                        self.oc.labels.append("size-taken-as-refused-after-3-aborts")
+                        todo[p] = left
+                        if not todo[p]:
+                            del todo[p]
+            if not todo:
+                break
             # calls known to damage the process are never mixed with others
             for p in sorted(todo):
                 for ci in [c for c in todo[p] if c in self.unsafe_calls]:
@@ -459,6 +488,9 @@ class Run:
 
     def refuse(self, p, how, text, ci=None):
         self.refusals[p] = how
+        if ci is not None and how in ("abort", "comm-create-abort"):
+            key = (self.target(ci), p)
+            self.abort_refusals[key] = self.abort_refusals.get(key, 0) + 1
         self.oc.labels.append("refuse:%s:%s:p=%d" % (self.coll, self.algo, p))
         self.oc.labels.append("refusal-by-" + how)
 
@@ -477,6 +509,8 @@ class Run:
 
     def bad(self, target, kind, p, ci, msg):
         self.fail.setdefault((target, kind), []).append((p, ci, msg))
+        if known_match(target, kind, self.features(p, ci)) is None:
+            self.unknown_failures[target] = self.unknown_failures.get(target, 0) + 1
 
     # ---- verdicts
     def describe(self, p, ci):
@@ -492,7 +526,10 @@ class Run:
 
     def features(self, p, ci):
         """what a known finding may depend on (known/C29.json: "match": {"target": "coll:algo", "kinds": [...], "when": {...}})"""
-        f = {"p": p, "pof2": pof2(p), "p_even": p % 2 == 0, "nhosts": self.case.get("nhosts", NP)}
+        mem = coll.members_of(self.case, p)
+        f = {"p": p, "pof2": pof2(p), "p_even": p % 2 == 0, "nhosts": self.case.get("nhosts", NP),
+             # one rank per host and the ranks of the communicator in the order of the world ranks (= of the hosts)
+             "plain_layout": self.case.get("nhosts", NP) >= NP and mem == sorted(mem)}
         if ci is None:
             return f
         c = self.calls[ci]
@@ -695,8 +732,11 @@ def cases(draw, tier):
         pos = draw(st.integers(0, len(calls)))
         calls.insert(pos, draw(call_strategy(coll.KINDS, [0, 1, 2])))
     sizes = draw(st.one_of(st.just(ALL_SIZES), st.lists(st.integers(1, NP), min_size=1, max_size=6, unique=True).map(sorted)))
-    return {"coll": c, "algo": a, "nhosts": draw(st.sampled_from([NP, NP, 1, 2, 4, 6])), "rot": draw(st.integers(0, NP - 1)),
+    case = {"coll": c, "algo": a, "nhosts": draw(st.sampled_from([NP, NP, 1, 2, 4, 6])), "rot": draw(st.integers(0, NP - 1)),
             "step": draw(st.integers(1, NP - 1)), "sizes": sizes, "calls": calls}
+    if case["nhosts"] == 4 and draw(st.booleans()):
+        case["members"] = coll.BLOCKED4
+    return case
 
 
 class C29(core.Prop):
@@ -753,6 +793,14 @@ class C29(core.Prop):
         res = []
         for c, a in selected_algorithms():
             res.append({"coll": c, "algo": a, "nhosts": NP, "rot": 0, "step": 1, "sizes": ALL_SIZES, "calls": standard_calls(c)})
+        # second pass: 4 hosts, consecutive ranks of the communicators on the same host: the SMP-aware algorithms and the selectors
+        # have other paths then (chosen by name, so that a new smp_* / two_level algorithm is included; the random cases vary the
+        # placement for every algorithm)
+        for c, a in selected_algorithms():
+            if not SMP_NAME_RE.search(a) and c != "nbc":
+                continue
+            res.append({"coll": c, "algo": a, "nhosts": 4, "members": coll.BLOCKED4, "sizes": [2, 4, 5, 8, 9, 12, 16, 17],
+                        "calls": standard_calls(c, seed=2)})
         return res
 
     def check(self, case):
